@@ -85,4 +85,32 @@ def P (s : String) : Path := s.toList.map (·.toNat)
 def three : KState := ((({} : KState).addOk (P "d") [] 5 true).addOk (P "d/a") [] 6 false).addOk (P "d/b") [] 7 false
 example : three.inv = true ∧ three.openFds = [7, 6, 5] ∧ three.closeAll.openFds = [] ∧ three.closeAll.wd = [] := by decide
 
+
+/-- what the driver prints for a snapshot is "ok" exactly when the executable invariant holds -/
+theorem invReport_ok_iff (s : KState) (links : List Path) : s.invReport links = "ok" ↔ s.inv = true := by
+  unfold KState.invReport KState.inv
+  by_cases h1 : s.openFds.all (fun fd => alHas fd s.wd) <;>
+  by_cases h2 : s.wd.all (fun e => s.openFds.contains e.1) <;>
+  by_cases h3 : s.wd.all (fun e => e.2.wd == e.1 && alLookup e.2.name s.path == some e.1) <;>
+  simp only [h1, h2, h3, Bool.not_true, Bool.not_false, Bool.false_eq_true, if_false, if_true,
+    Bool.true_and, Bool.and_true, Bool.false_and, Bool.and_false] <;> try (simp; done)
+  cases hf : s.byUser.find? (fun p => !(alHas p s.path || s.wd.any (fun e => e.2.linkName == p))) with
+  | none =>
+    simp only [true_iff]
+    rw [List.all_eq_true]
+    intro p hp
+    have := List.find?_eq_none.mp hf p hp
+    cases hh : (alHas p s.path || s.wd.any (fun e => e.2.linkName == p)) with
+    | true => rfl
+    | false => simp [hh] at this
+  | some p =>
+    have hp := List.find?_some hf
+    have hm := List.mem_of_find?_eq_some hf
+    have : s.byUser.all (fun p => alHas p s.path || s.wd.any (fun e => e.2.linkName == p)) = false := by
+      rw [Bool.eq_false_iff]; intro hall
+      have := List.all_eq_true.mp hall p hm
+      simp [this] at hp
+    simp only [this]
+    split <;> simp
+
 end C17
